@@ -516,6 +516,91 @@ theorem C20_link_is_source [DecidableEq α] (E : Sync.Env α) (k : KWorld α) (p
     (∀ d : TraitDesc, evalIsList d Generated.SyncLink.isListTrait = some (isListTrait d)) :=
   ⟨linkS_is_source E k p q both, isListTrait_is_source⟩
 
+/-- **Removal is the source.** For every state, every pair of traits, both values
+of `mutual` and every meaning of `setattr`, the hand-written transcription
+`unlinkS` of the `remove=True` path (table entry, table, both handlers — the items
+handler goes with the last live `List` partner —, then the reverse removal) is the
+interpretation of the generated `sync_trait` program; it raises nothing. -/
+theorem C20_unlink_is_source (E : Sync.Env α) (call : Rec α) (k : KWorld α) (p q : Pair) (both : Bool) :
+    (unlinkS E k p q both, (none : Option Exc)) =
+      runLink E.isList call Generated.SyncLink.syncTrait k p q both true :=
+  unlinkS_is_source E call k p q both
+
+/-- **The commands of a history are `Model.Sync`'s.** On every quiet state between
+two commands (empty lock tables), what `stepK` runs — `cascadeK` (the interpreted
+handlers, `C20_step_is_source`), `linkS` / `unlinkS` (the interpreted `sync_trait`,
+`C20_link_is_source`, `C20_unlink_is_source`) and `killK` — computes the worlds,
+exceptions and return values of `World.assign`, `World.mutate`, `World.link`,
+`World.unlink`, `World.kill`, and leaves a quiet state: the theorems about
+`Model.Sync` are statements about the interpreted source. -/
+theorem C20_commands_are_model [DecidableEq α] (E : Sync.Env α) (k : KWorld α) (hq : Quiet k) (hL : k.w.locked = []) :
+    (∀ p v, (assignK E k p v).world = { k with w := (k.w.assign E p v).world } ∧
+        (assignK E k p v).exc = (k.w.assign E p v).exc ∧ (assignK E k p v).ret = (k.w.assign E p v).ret) ∧
+    (∀ p op, (mutateK E k p op).world = { k with w := (k.w.mutate E p op).world } ∧
+        (mutateK E k p op).exc = (k.w.mutate E p op).exc ∧ (mutateK E k p op).ret = (k.w.mutate E p op).ret) ∧
+    (∀ p q b, p.1 ∉ k.dead → q.1 ∉ k.dead →
+        (linkS E k p q b).1.w = (k.w.link E p q b).world ∧ (linkS E k p q b).2 = (k.w.link E p q b).exc ∧
+        Quiet (linkS E k p q b).1) ∧
+    (∀ p q b, (unlinkS E k p q b).w = k.w.unlink E p q b ∧ Quiet (unlinkS E k p q b)) ∧
+    (∀ o, (killK k o).w = k.w.kill o ∧ Quiet (killK k o)) :=
+  ⟨fun p v => assignK_w E k p v hq, fun p op => mutateK_w E k p op hq,
+   fun p q b hp hq' => linkS_w E k p q b hq hL hp hq',
+   fun p q b => ⟨(unlinkS_quiet E k p q b hq).1, (unlinkS_quiet E k p q b hq).2.1⟩,
+   fun o => killK_quiet k o hq hL⟩
+
+/-- `C20_one_way` about the interpreted source. -/
+theorem C20_one_way_source [DecidableEq α] (E : Sync.Env α) (k : KWorld α) (src t : Pair) (hq : Quiet k)
+    (hL : k.w.locked = []) (hsrc : ∀ e ∈ k.w.edges, e.dst ≠ src) (ht : src ≠ t) :
+    (∀ v, SameAt src k.w (assignK E k t v).world.w) ∧ (∀ op, SameAt src k.w (mutateK E k t op).world.w) := by
+  obtain ⟨h1, h2⟩ := C20_one_way E k.w src t hL hsrc ht
+  exact ⟨fun v => by rw [(assignK_w E k t v hq).1]; exact h1 v,
+         fun op => by rw [(mutateK_w E k t op hq).1]; exact h2 op⟩
+
+/-- `C20_removed` about the interpreted source: `unlinkS` (the interpreted
+`sync_trait(…, remove=True)`) then `assignK` / `mutateK` (the interpreted handlers). -/
+theorem C20_removed_source [DecidableEq α] (E : Sync.Env α) (k : KWorld α) (p q : Pair) (hq : Quiet k)
+    (hL : k.w.locked = [])
+    (honly_q : ∀ e ∈ k.w.edges, e.dst = q → e = ⟨p, q⟩)
+    (honly_p : ∀ e ∈ k.w.edges, e.dst = p → e = ⟨q, p⟩) :
+    let k' := unlinkS E k p q true
+    k'.w.locked = [] ∧ k'.w.val = k.w.val ∧
+    (∀ e ∈ k'.w.edges, e ∈ k.w.edges ∧ e ≠ ⟨p, q⟩ ∧ e ≠ ⟨q, p⟩) ∧
+    (∀ t v, t ≠ q → SameAt q k'.w (assignK E k' t v).world.w) ∧
+    (∀ t op, t ≠ q → SameAt q k'.w (mutateK E k' t op).world.w) ∧
+    (∀ t v, t ≠ p → SameAt p k'.w (assignK E k' t v).world.w) ∧
+    (∀ t op, t ≠ p → SameAt p k'.w (mutateK E k' t op).world.w) := by
+  intro k'
+  obtain ⟨hw, hq', _⟩ := unlinkS_quiet E k p q true hq
+  have h := C20_removed E k.w p q hL honly_q honly_p
+  simp only at h
+  obtain ⟨a1, a2, a3, a4, a5, a6, a7⟩ := h
+  have hw' : k'.w = k.w.unlink E p q true := hw
+  refine ⟨by rw [hw']; exact a1, by rw [hw']; exact a2, by rw [hw']; exact a3, ?_, ?_, ?_, ?_⟩
+  · intro t v ht; rw [(assignK_w E k' t v hq').1, hw']; exact a4 t v ht
+  · intro t op ht; rw [(mutateK_w E k' t op hq').1, hw']; exact a5 t op ht
+  · intro t v ht; rw [(assignK_w E k' t v hq').1, hw']; exact a6 t v ht
+  · intro t op ht; rw [(mutateK_w E k' t op hq').1, hw']; exact a7 t op ht
+
+/-- `C20_partner_dead` about the interpreted source. -/
+theorem C20_partner_dead_source [DecidableEq α] (E : Sync.Env α) (k : KWorld α) (o : Nat) (hq : Quiet k)
+    (hL : k.w.locked = []) :
+    let k' := killK k o
+    k'.w.locked = [] ∧ k'.w.val = k.w.val ∧
+    (∀ e ∈ k'.w.edges, e ∈ k.w.edges ∧ e.src.1 ≠ o ∧ e.dst.1 ≠ o) ∧
+    (∀ cs, (runK E k' cs).w.locked = []) ∧
+    (∀ (n : Name) t v, t.1 ≠ o → SameAt (o, n) k'.w (assignK E k' t v).world.w) ∧
+    (∀ (n : Name) t op, t.1 ≠ o → SameAt (o, n) k'.w (mutateK E k' t op).world.w) := by
+  intro k'
+  obtain ⟨hw, hq'⟩ := killK_quiet k o hq hL
+  have h := C20_partner_dead E k.w o hL
+  simp only at h
+  obtain ⟨a1, a2, a3, _, a5, a6⟩ := h
+  have hw' : k'.w = k.w.kill o := hw
+  refine ⟨by rw [hw']; exact a1, by rw [hw']; exact a2, by rw [hw']; exact a3,
+    fun cs => (runK_rest (n := k'.swallowed) E cs k' ⟨by rw [hw']; exact a1, rfl⟩).1, ?_, ?_⟩
+  · intro n t v ht; rw [(assignK_w E k' t v hq').1, hw']; exact a5 n t v ht
+  · intro n t op ht; rw [(mutateK_w E k' t op hq').1, hw']; exact a6 n t op ht
+
 /-! ### Partner death during a propagation (finding F97, repaired by 8e10b05) -/
 
 /-- **Lock released, nothing escapes — also when partners die mid-propagation.**
